@@ -63,6 +63,8 @@ def main():
                             break
                 meta_p = os.path.join(d, "meta.json")
                 meta = json.load(open(meta_p)) if os.path.exists(meta_p) else {}
+                if srcs is None:  # --no-suite: keep what an earlier full confirmation recorded
+                    srcs = (meta.get("confirmed") or {}).get("suite_passes_with_change")
                 meta.update({
                     "id": sid, "property": prop,
                     "confirmed": {"patch_applies": rca == 0, "demo_exit_unchanged": rc0, "demo_exit_changed": rc1,
